@@ -216,7 +216,45 @@ func runC02Checkpoint(r *mon.Run, stream uint64) {
 		b2 = t.Extend(b2, prof)
 		p2 = append(p2, b2)
 	}
-	for _, part := range [][]*chainlab.Node{p1, p2} {
+	// the checkpoint block itself may be delivered again at any time (alone or
+	// leading a batch): it is a known, applied block and nothing may change
+	redeliver := func(when string, follow []*chainlab.Node) bool {
+		batch := append([]types.Block{cp.Block}, chainlab.Blocks(follow)...)
+		var err error
+		if pn := mon.Guard(func() { err = A.CM.AddBlocks(batch) }); pn != nil {
+			r.Violation("checkpoint-redelivery-panic", fmt.Sprint("AddBlocks panicked when the checkpoint block was delivered again: ", pn), cs, nil)
+			return false
+		}
+		if err != nil {
+			r.Violation("checkpoint-redelivery-rejected", "the checkpoint block delivered again ("+when+") was rejected: "+err.Error(), cs, nil)
+			return false
+		}
+		st, ok := A.CM.State(cp.ID)
+		if !ok || chainlab.StateBytes(st) != chainlab.StateBytes(cp.L.State) {
+			r.Violation("checkpoint-state-changed-by-redelivery", "after the checkpoint block was delivered again ("+when+") the stored state of the checkpoint differs from the pure replay", cs, nil)
+			return false
+		}
+		r.Count("checkpoint_block_redelivered:"+when, 1)
+		return true
+	}
+	mode := rng.IntN(4)
+	for i, part := range [][]*chainlab.Node{p1, p2} {
+		switch {
+		case mode == 1 && i == 0:
+			if !redeliver("before-first-branch", nil) {
+				return
+			}
+		case mode == 2 && i == 1:
+			if !redeliver("between-branches", nil) {
+				return
+			}
+		case mode == 3 && i == 1:
+			// leading the batch that causes the reorg down to the checkpoint
+			if !redeliver("leading-the-reorg-batch", part) {
+				return
+			}
+			continue
+		}
 		if err := A.CM.AddBlocks(chainlab.Blocks(part)); err != nil {
 			r.Violation("checkpoint-addblocks", "checkpoint node rejected valid blocks: "+err.Error(), cs, nil)
 			return
@@ -414,7 +452,9 @@ func runC02(r *mon.Run, replay string) {
 		}
 		runC02Tree(r, uint64(2000+i), regimes[i%3], sz)
 	})
-	parallel(r.Pick(30, 300), func(i int) { runC02Checkpoint(r, uint64(700000+i)) })
+	parallel(r.Pick(60, 400), func(i int) { runC02Checkpoint(r, uint64(700000+i)) })
+	r.Floor("checkpoint_block_redelivered:between-branches", 5)
+	r.Floor("checkpoint_block_redelivered:leading-the-reorg-batch", 5)
 	parallel(r.Pick(12, 100), func(i int) { runC02Order(r, uint64(800000+i)) })
 	parallel(r.Pick(120, 1500), func(i int) { runC02SharedEnds(r, uint64(810000+i)) })
 	r.Floor("shared_end_histories", 50)
